@@ -265,6 +265,16 @@ func vFSList(dir string) []string {
 //
 //verif:intrinsic
 func vDigest(data []byte, k int) byte {
+	// a replayed solver model fixes the digests it depends on (the code is parametric in the hash)
+	if m := vLoadModel(); m != nil && len(m.UF) > 0 {
+		key := "dg" + strconv.Itoa(len(data)) + "_" + strconv.Itoa(k) + "("
+		for _, b := range data {
+			key += strconv.Itoa(int(b)) + ","
+		}
+		if v, ok := m.UF[key+")"]; ok {
+			return byte(v)
+		}
+	}
 	s := sha1.Sum(data)
 	return s[k]
 }
